@@ -571,3 +571,28 @@ Proof. split; reflexivity. Qed.
 
 Lemma passes_spec c o : passes c o = true <-> 100 < slowest_of c o / c_prec c.
 Proof. unfold passes. apply N.ltb_lt. Qed.
+
+(** * A bound that needs no exact clock: rounds under a time ceiling *)
+Theorem rounds_bounded c init hist out d :
+  c_test c = false -> has_samples c = true ->
+  bench_loop c init hist = Ok out ->
+  (forall j, (j <= length hist)%nat -> N.of_nat j * d <= elapsed_after c init hist j) ->
+  c04_os_sb (c_max c) d (N.of_nat (rounds_of (out_state out))) = true.
+Proof.
+  intros Ht Hh H Hd. destruct (rounds_least c init hist out Ht Hh H) as [Hk [Hlt _]].
+  unfold c04_os_sb. destruct (rounds_of (out_state out)) as [|k'] eqn:Ek; [reflexivity|].
+  assert (Hc : continue_after c init hist k' = true) by (apply Hlt; lia).
+  apply continue_after_spec in Hc. destruct Hc as [Hmax _].
+  specialize (Hd k' ltac:(lia)).
+  assert (E : (N.of_nat (S k') - 1) * d <? c_max c = true) by (apply N.ltb_lt; lia).
+  rewrite E. apply Bool.orb_true_r.
+Qed.
+
+Example rounds_bounded_example :
+  forall j, (j <= length ex_hist)%nat -> N.of_nat j * 300 <= elapsed_after ex_cfg 0 ex_hist j.
+Proof. intros j Hj. do 4 (destruct j as [|j]; [vm_compute; discriminate|]). cbn in Hj. lia. Qed.
+
+Example decimal_nanos_example :
+  decimal_nanos 0 [0; 0; 0; 4] = 400000 /\ decimal_nanos 1 [5] = 1500000000 /\ decimal_nanos 2 [] = 2000000000 /\
+  decimal_nanos 0 [0; 0; 1; 4; 0; 0; 0; 0; 7] = 1400007.
+Proof. repeat split; reflexivity. Qed.
